@@ -57,6 +57,22 @@ _built = collections.OrderedDict()
 
 # ------------------------------------------------------------------ generation
 
+SV_CDEF = """
+typedef struct { int a; long b; double c; char d; } c33_sv_t;
+union c33_un { int i; double dd; };
+c33_sv_t c33_mk(int x);
+union c33_un c33_mku(int x);
+long c33_sum(c33_sv_t s);
+"""
+SV_SRC = """
+typedef struct { int a; long b; double c; char d; } c33_sv_t;
+union c33_un { int i; double dd; };
+c33_sv_t c33_mk(int x) { c33_sv_t r; r.a = x; r.b = x * 100L + 1; r.c = x * 0.25; r.d = (char)(65 + x % 20); return r; }
+union c33_un c33_mku(int x) { union c33_un u; u.dd = 0; u.i = x * 3; return u; }
+long c33_sum(c33_sv_t s) { return s.a + s.b + (long)(s.c * 4) + s.d; }
+"""
+
+
 def _ctype(prim):
     """cdefgen primitive name -> callgen scalar type"""
     if prim in ('char', 'wchar_t'):
@@ -274,8 +290,8 @@ def _layout(ffi, typename):
 
 def prop(case, ctx):
     spec, partial = case['spec'], case['partial']
-    cdef = render_cdef(spec, partial)
-    src = cdefgen.c_source(spec)
+    cdef = render_cdef(spec, partial) + SV_CDEF
+    src = cdefgen.c_source(spec) + SV_SRC
     try:
         builds = get_builds(cdef, src, case['distutils'], ctx)
     except HarnessError:
@@ -300,6 +316,21 @@ def prop(case, ctx):
         if expected is not None and outcomes[0] != ['ok', expected]:
             ctx.fail('%s: all three builds give %r, the C source says %r' % (item, outcomes[0], expected),
                      item=item, cdef=cdef, source=src)
+
+    # 0. structs / unions passed and returned by value; several results are kept alive and read
+    #    only after all the calls were made (each result must be its own object)
+    xs = [1 + (len(cdef) + 7 * j) % 50 for j in range(4)]
+
+    def by_value(e):
+        ffi, lib = builds[e]
+        held = [lib.c33_mk(x) for x in xs]
+        heldu = [lib.c33_mku(x) for x in xs]
+        sums = [lib.c33_sum(h) for h in held]
+        return [[(h.a, h.b, h.c, h.d) for h in held], [u.i for u in heldu], sums]
+    check('struct/union by value: c33_mk, c33_mku, c33_sum',
+          [_outcome(lambda e=e: by_value(e)) for e in ENGINES], 'struct-by-value-results-kept',
+          expected=[[(x, x * 100 + 1, x * 0.25, bytes([65 + x % 20])) for x in xs], [x * 3 for x in xs],
+                    [x + x * 100 + 1 + x + 65 + x % 20 for x in xs]])
 
     # 1. names
     names = [sorted(n for n in dir(builds[e][1]) if not n.startswith('_')) for e in ENGINES]
